@@ -30,9 +30,14 @@ def main():
         sh(f"git -C /repo worktree add -q --detach {wt} HEAD")
         try:
             rc, o = sh(f"git diff {h} {h}^ | git apply -3 -", cwd=wt)
+            manual = f"/verif/seeded/fix_reverts/{h}.diff"
             if rc != 0 or "with conflicts" in o:
-                results[h] = {"subject": subject, "applies": False, "note": "the reverse patch conflicts with later fixes on the same lines"}
-                continue
+                # later fixes touch the same lines: a hand-made patch that re-introduces exactly this defect on the current head
+                sh("git reset -q --hard HEAD", cwd=wt)
+                rc2, o2 = sh(f"git apply {manual}", cwd=wt) if os.path.exists(manual) else (1, "")
+                if rc2 != 0:
+                    results[h] = {"subject": subject, "applies": False, "note": "the reverse patch conflicts with later fixes on the same lines"}
+                    continue
             res = {}
             for c in checks:
                 rc, o = sh(f"/verif/check {c}", env={"VERIF_REPO": wt, "VERIF_EVIDENCE_DIR": f"/tmp/fixrev_ev.{os.getpid()}"})
